@@ -157,6 +157,19 @@ theorem c04_resumable (stdin : Bool) (input : List UInt8) (hasOut hasErr : Bool)
     input = ss.sys.w.gIn ++ ss.sys.w.inBuf ++ ss.sys.par.input :=
   c02_exact stdin input hasOut hasErr capIn capOut capErr now script evs ss h
 
+/-- **C04 (the wait is re-derived from the deadline in every round).**  With a deadline `d` in force,
+    the clock reading `t` taken before a `poll` turns into a wait of exactly `d - t` (0 once the
+    deadline has passed): the next system calls are the clock reading of `posix::poll` and then
+    `poll` with that wait (clamped to `i32` milliseconds).  A wait computed once per call and reused
+    (which would let a child that speaks late extend the call to almost twice the limit) is not what
+    the library does. -/
+theorem c04_wait_is_remaining_time (p : Par) (d t t2 : Nat) (hpc : p.pc = .clkPoll) (hd : p.deadline = some d) :
+    (feed p (.time t) []).pc = .clkPoll2 (d - t) ∧
+    (feed (feed p (.time t) []) (.time t2) []).pc = .poll (some (d - t)) (t2 + (d - t)) ∧
+    pendingCall (feed (feed p (.time t) []) (.time t2) []) = .poll p.stdin p.outRef p.errRef (some (clampMs (d - t))) := by
+  simp [feed, hpc, hd, pendingCall]
+
+
 /-! ### Non-vacuity (tests, labelled as tests) -/
 -- a silent child and a 5 ms limit: clock, clock, clock, poll(5) returns 0 after 5 ms -> TimedOut
 example : (runSess (initSess false [] true false (initWorld 65536 65536 65536 [.sleep] 0))
